@@ -531,9 +531,13 @@ class Sim:
         inp = self.inp
         fmt = world["fmt"]
         self.kw = {}
+        recur = bool(world.get("h_recur"))
         if fmt == "blocked":
             def hcb(*index):
                 index = tuple(int(i) for i in index)
+                if recur and index[2] >= 1:
+                    # the caller's Hamiltonian is itself a recurrence: a term looks at its own memoised previous order
+                    self.h_root[(index[0], index[1], index[2] - 1, *index[3:])]
                 return env.h_call(index, index[2:], lambda: inp.blocks.get(index, zero))
 
             self.user_data = None
@@ -564,6 +568,8 @@ class Sim:
 
             def hcb(*index):
                 index = tuple(int(i) for i in index)
+                if recur and index[0] >= 1:
+                    self.H[(index[0] - 1, *index[1:])]
                 return env.h_call(index, index, lambda: inp.full.get(index, zero))
 
             dn = tuple(f"alpha_{k}" for k in range(inp.npert)) if world.get("dimnames") else None
@@ -1488,7 +1494,7 @@ class GraphProp:
              "p_sparse": r.choice([0.0, 0.3, 0.5, 0.7]) if domain == "sparse" else 0.0,
              "sparse_fmts": r.choice([["csr"], ["csr"], ["csc"], ["coo", "csr"], ["csr", "dia", "csc"]]) if domain == "sparse" else None,
              "atol": r.choice([None, None, None, 1e-10, 1e-14]),
-             "view_input": r.random() < 0.15, "sectors": bool(nb >= 3 and domain in ("dense", "sparse") and r.random() < 0.25),
+             "view_input": r.random() < 0.15, "h_recur": r.random() < 0.15, "sectors": bool(nb >= 3 and domain in ("dense", "sparse") and r.random() < 0.25),
              "cap": profile.get("max_total", {1: 4, 2: 3, 3: 2})[npert] if domain != "sym" else 3}
         if fmt == "scalar_vecs":
             w["real"] = False
